@@ -57,6 +57,9 @@ type handler1 struct {
 	pktBuffer        []snPkts.Packet
 	group            *errgroup.Group
 	transactions     *transactions.TransactionStore
+	// Transactions initiated by the MQTT broker. The client and the broker
+	// choose their MsgIDs independently, hence the separate store.
+	brokerTxStore *transactions.TransactionStore
 	// for testing
 	mockupDialFunc func() net.Conn
 }
@@ -135,6 +138,7 @@ func newHandler(cfg *handlerConfig, predefinedTopics topics.PredefinedTopics,
 		predefinedTopics: predefinedTopics,
 		topicID:          util.NewIDSequence(snPkts.MinTopicAlias, snPkts.MaxTopicAlias),
 		transactions:     transactions.NewTransactionStore(),
+		brokerTxStore:    transactions.NewTransactionStore(),
 	}
 
 	return h
@@ -352,7 +356,7 @@ func (h *handler1) handleBrokerPublish(ctx context.Context, mqPublish *mqPkts.Pu
 		// an "almost surely available" MsgID :(
 		found := false
 		for i := snPkts.MaxPacketID; i >= snPkts.MinPacketID; i-- {
-			if _, ok := h.transactions.Get(i); !ok {
+			if _, ok := h.brokerTxStore.Get(i); !ok {
 				msgID = i
 				found = true
 				break
@@ -411,7 +415,7 @@ func (h *handler1) handleBrokerPublish(ctx context.Context, mqPublish *mqPkts.Pu
 		}
 	}
 
-	h.transactions.Store(msgID, transaction)
+	h.brokerTxStore.Store(msgID, transaction)
 	return transaction.ProceedSN(nextState, snPkt)
 }
 
@@ -481,7 +485,7 @@ func (h *handler1) handleMqtt(ctx context.Context, pkt mqPkts.ControlPacket) err
 
 	// MQTT broker PUBLISH QoS 2 transaction.
 	case *mqPkts.PubrelPacket:
-		transactionx, _ := h.transactions.Get(mqPkt.MessageID)
+		transactionx, _ := h.brokerTxStore.Get(mqPkt.MessageID)
 		transaction, ok := transactionx.(*brokerPublishQOS2Transaction)
 		if !ok {
 			h.log.Error("Unexpected transaction type %T for packet: %v", transactionx, mqPkt)
@@ -929,7 +933,7 @@ func (h *handler1) handleMqttSn(ctx context.Context, pkt snPkts.Packet) error {
 	// packet with an unregistered topic => the gateway initializes
 	// registration and the client must acknowledge it.
 	case *snPkts1.Regack:
-		transactionx, _ := h.transactions.Get(snPkt.MessageID())
+		transactionx, _ := h.brokerTxStore.Get(snPkt.MessageID())
 		if transaction, ok := transactionx.(transactionWithRegack); ok {
 			return transaction.Regack(snPkt)
 		}
@@ -938,7 +942,7 @@ func (h *handler1) handleMqttSn(ctx context.Context, pkt snPkts.Packet) error {
 
 	// MQTT broker PUBLISH QoS 1 transaction.
 	case *snPkts1.Puback:
-		transactionx, _ := h.transactions.Get(snPkt.MessageID())
+		transactionx, _ := h.brokerTxStore.Get(snPkt.MessageID())
 		if transaction, ok := transactionx.(*brokerPublishQOS1Transaction); ok {
 			return transaction.Puback(snPkt)
 		}
@@ -947,7 +951,7 @@ func (h *handler1) handleMqttSn(ctx context.Context, pkt snPkts.Packet) error {
 
 	// MQTT broker PUBLISH QoS 2 transaction.
 	case *snPkts1.Pubrec:
-		transactionx, _ := h.transactions.Get(snPkt.MessageID())
+		transactionx, _ := h.brokerTxStore.Get(snPkt.MessageID())
 		if transaction, ok := transactionx.(*brokerPublishQOS2Transaction); ok {
 			return transaction.Pubrec(snPkt)
 		}
@@ -956,7 +960,7 @@ func (h *handler1) handleMqttSn(ctx context.Context, pkt snPkts.Packet) error {
 
 	// MQTT broker PUBLISH QoS 2 transaction.
 	case *snPkts1.Pubcomp:
-		transactionx, _ := h.transactions.Get(snPkt.MessageID())
+		transactionx, _ := h.brokerTxStore.Get(snPkt.MessageID())
 		if transaction, ok := transactionx.(*brokerPublishQOS2Transaction); ok {
 			return transaction.Pubcomp(snPkt)
 		}
